@@ -1,4 +1,5 @@
 import AscaVerif.Model.Syll
+import AscaVerif.Model.Interp.Subst
 /-! # C05 — stress, length and tone modifiers follow the manual's three-way tables
 
 `lenOK` / `stressOK` / `setLen` / `setStress` are the two tables of `doc.md` §Suprasegmental Features written
@@ -216,6 +217,19 @@ theorem set_frame (L : Nat) (st : Stress) :
 theorem contradictory_iff (a b : Option Bool) (L : Nat) (st : Stress) :
     (setLen a b L = none ↔ a = some false ∧ b = some true) ∧ (setStress a b st = none ↔ a = some false ∧ b = some true) := by
   rcases a with _ | _ | _ <;> rcases b with _ | _ | _ <;> simp [setLen, setStress]
+
+/-- **the search resumes after the whole resized run** (the repaired defect D5): after a one-for-one rule has applied an
+    output matrix to a run of `L` copies at position `gi`, changing its length by `lc` (`applyLength_run`: `lc = L' - L`),
+    the cursor stands on the LAST copy of the new run, so the next match attempt starts behind it — never inside it. -/
+theorem cursor_after_resized_run (sp : SegPos) (L L' : Nat) (hL' : 1 ≤ L') (hfit : sp.gi + L' < 2 ^ 64) :
+    (Interp.bumpRun sp L ((L' : Int) - (L : Int)) 1 1 0).gi = sp.gi + (L' - 1) ∧
+    (Interp.bumpRun sp L ((L' : Int) - (L : Int)) 1 1 0).si = sp.si := by
+  unfold Interp.bumpRun
+  have h1 : (max ((L : Int) + ((L' : Int) - (L : Int)) - 1) 0).toNat = L' - 1 := by omega
+  simp only [h1, beq_self_eq_true, if_true, Nat.lt_irrefl, if_false, Nat.sub_self]
+  refine ⟨?_, trivial⟩
+  unfold wadd U
+  exact Nat.mod_eq_of_lt (by omega)
 
 /-! Non-vacuity: `t a a k` with the run `aa` at position 1, `[+overlong, +stress]` -/
 example :
